@@ -234,6 +234,30 @@ def classify(name, args):
     return None
 
 
+def _slipped_interval(b, ann, mg):
+    """Diagnostic only: the interval selection WITH the suspected if/elif slip of
+    beat._get_entropy (first-annotation case falls through to the generic
+    branch, where index -1 wraps around to the last annotation)."""
+    c, _ = beat_ref._nearest(b, ann, mg)
+    e = b - ann[c]
+    if c == len(ann) - 1:
+        iv = ann[-1] - ann[-2]
+    elif e < 0:
+        iv = ann[c] - ann[c - 1]          # c == 0: ann[0] - ann[-1]
+    else:
+        iv = ann[c + 1] - ann[c]
+    return e, iv
+
+
+def slipped_information_gain(*args, **kw):
+    keep = beat_ref._selected_interval
+    beat_ref._selected_interval = _slipped_interval
+    try:
+        return beat_ref.information_gain(*args, **kw)
+    finally:
+        beat_ref._selected_interval = keep
+
+
 def short(a):
     return np.array2string(np.asarray(a), separator=",", max_line_width=10 ** 6,
                            floatmode="unique").replace("\n", "")
@@ -245,6 +269,8 @@ def run(n_cases, seed, show_all):
     for fi, (name, lib, ref_fn, make) in enumerate(CASES):
         rng = random.Random(seed * 1000 + fi)
         stats = {"cases": 0, "compared": 0, "low_margin": 0, "agree": 0}
+        distinct = set()
+        mech = [0, 0]          # D13 mechanism check: [checked, explained]
         classes = {}
         class_population = {}
         t0 = time.time()
@@ -268,6 +294,13 @@ def run(n_cases, seed, show_all):
                 stats["low_margin"] += 1
                 continue
             stats["compared"] += 1
+            distinct.add(oracle_value if not any(map(math.isnan, oracle_value)) else "nan")
+            if name == "beat.information_gain" and cls and "D18" not in cls and raised is None:
+                # does imitating the single if/elif slip reproduce the library?
+                sv, sm = slipped_information_gain(*args, **kw)
+                if sm >= MIN_MARGIN:
+                    mech[0] += 1
+                    mech[1] += same(lib_value, as_tuple(sv))
             if raised is None and same(lib_value, oracle_value):
                 stats["agree"] += 1
                 continue
@@ -280,6 +313,11 @@ def run(n_cases, seed, show_all):
         print("== %-22s cases=%d compared=%d skipped(margin<%g)=%d agree=%d disagree=%d  (%.1fs)"
               % (name, stats["cases"], stats["compared"], MIN_MARGIN, stats["low_margin"],
                  stats["agree"], stats["compared"] - stats["agree"], dt))
+        print("     distinct oracle values among compared cases: %d" % len(distinct))
+        if mech[0]:
+            print("     D13 mechanism check: oracle + imitated if/elif slip == library on %d of %d D13 inputs"
+                  % (mech[1], mech[0]))
+            unexplained += mech[0] - mech[1]
         for cls, cnt in sorted(class_population.items()):
             print("     inputs satisfying predicate %-60s %d" % (cls, cnt))
         for key, recs in sorted(classes.items()):
